@@ -560,9 +560,19 @@ int yr_object_copy(YR_OBJECT* object, YR_OBJECT** object_copy)
   case OBJECT_TYPE_STRING:
 
     if (object->value.ss != NULL)
+    {
       copy->value.ss = ss_dup(object->value.ss);
+
+      if (copy->value.ss == NULL)
+      {
+        yr_object_destroy(copy);
+        return ERROR_INSUFFICIENT_MEMORY;
+      }
+    }
     else
+    {
       copy->value.ss = NULL;
+    }
 
     break;
 
